@@ -136,7 +136,8 @@ static inline uint16_t ll_connection_event_counter(void) { return G_counter; }
 static inline enum ll_result ll_handle_pending_ll_control(uint16_t instance) { G_o.pending_arg = instance; REC(C_PENDING); return W_pending_disconnect ? ll_result_disconnect : ll_result_go_ahead; }
 static inline uint32_t ll_setup_next_connection_event(void) { REC(C_SETUP); return 0; }
 static inline void ll_handle_connection_events(void) { REC(C_EVENTS); }
-static inline void ll_sync_new_connection(void) {} static inline void ll_sync_connection_changed(void) {} static inline void cb_connection_established(void) {}
+size_t G_established;
+static inline void ll_sync_new_connection(void) {} static inline void ll_sync_connection_changed(void) {} static inline void cb_connection_established(void) { ++G_established; }
 static inline enum ll_result ll_handle_received_data(void) { REC(C_RECEIVED); return W_recv_disconnect ? ll_result_disconnect : ll_result_go_ahead; }
 static inline enum ll_result ll_send_control_pdus(void) { REC(C_SEND_CONTROL); return ll_result_go_ahead; }
 static inline void ll_transmit_pending_security_pdus(void) { REC(C_SECURITY); }
@@ -172,7 +173,7 @@ __CPROVER_assigns(__CPROVER_object_whole(self), G_o, G_counter)
 {{timeout}}
 /* a connection event ended */
 void ll_end_event(struct ll* self, struct connection_event_events evts)
-__CPROVER_requires(LL_OK(self))
+__CPROVER_requires(LL_OK(self) && G_established == 0)
 #define ENDS_FIRST (TERMINATED || W_recv_disconnect)
 __CPROVER_ensures((!ENDS_FIRST && PROC_TIMEOUT) ==> (G_o.reason_disconnects == 1 && G_o.reason == 0x22 && G_o.disconnects == 0 && !SEQ_HAS(C_PLAN) && !SEQ_HAS(C_SETUP)))
 __CPROVER_ensures(G_o.reason_disconnects == 1 ==> (PROC_TIMEOUT && !ENDS_FIRST))
@@ -183,7 +184,10 @@ __CPROVER_ensures((!ENDS_FIRST && W_proc == 0) ==> self->procedure_timeout_ == 0
 __CPROVER_ensures(SEQ_HAS(C_PLAN) ==> (SEQ_HAS(C_RECEIVED) && G_o.plan_pending == ((self->defered_ll_control_pdu_.buffer != 0) || (self->defered_ll_control_pdu_.size != 0)) && G_o.plan_instant == self->defered_conn_event_counter_))
 __CPROVER_ensures(SEQ_HAS(C_PENDING) ==> (SEQ_HAS(C_PLAN) && G_o.pending_arg == W_counter_after))
 __CPROVER_ensures(G_o.disconnects + G_o.reason_disconnects <= 1 && SEQ_HAS(C_EVENTS))
-__CPROVER_assigns(__CPROVER_object_whole(self), G_o, G_counter)
+/* C29: the first connection event that ends makes the connection 'established' - reported exactly then, once; afterwards the state is 'connected' (a connection that is being closed stays so) */
+__CPROVER_ensures(G_established == (W_state == state_connecting ? 1 : 0))
+__CPROVER_ensures((G_o.disconnects + G_o.reason_disconnects == 0) ==> self->state_ == (W_state == state_disconnecting ? state_disconnecting : state_connected))
+__CPROVER_assigns(__CPROVER_object_whole(self), G_o, G_counter, G_established)
 {{end_event}}
 /* peripheral initiated requests */
 void transmit_pending_control_pdus(struct ll* self)
@@ -331,7 +335,7 @@ __CPROVER_assigns(__CPROVER_object_whole(self), G_rx)
 {{received}}
 #define SETUP struct ll* s; W_t = nondet_u32(); W_out_pending = nondet_bool(); W_recv_disconnect = nondet_bool(); W_pending_disconnect = nondet_bool(); W_alloc_ok = nondet_bool(); W_cpr_rsp_pending = nondet_bool(); W_counter_after = nondet_u16(); \
   W_state = nondet_int(); W_proc = nondet_u32(); W_conn_timeout = nondet_u32(); W_interval = nondet_u32(); W_term_sent = nondet_bool(); W_deferred = nondet_bool(); W_instant = nondet_u16(); W_cpr_pending = nondet_bool(); W_phy_pending = nondet_bool(); W_ver_pending = nondet_bool(); W_version_sent = nondet_bool(); W_phy_running = nondet_bool(); \
-  G_o = (struct o_rec){ 0 }; W_op = nondet_u8(); W_size = nondet_u8(); W_pdu[3] = nondet_u8(); W_pdu[4] = nondet_u8(); W_pdu[5] = nondet_u8(); W_pdu[6] = nondet_u8(); W_commit = nondet_bool(); G_set_phy.calls = 0; G_enc_resets = 0; G_a.n = 0; G_supported_features = nondet_u16(); W_conn_req = nondet_bool(); W_map_ok = nondet_bool(); W_timing_ok = nondet_bool(); G_rx = (struct rx_rec){ 0 }; G_rx.total = nondet_size(); G_rx.order_ok = true; G_k = nondet_size(); BT_KNOWN_EXCLUDE()
+  G_o = (struct o_rec){ 0 }; W_op = nondet_u8(); W_size = nondet_u8(); W_pdu[3] = nondet_u8(); W_pdu[4] = nondet_u8(); W_pdu[5] = nondet_u8(); W_pdu[6] = nondet_u8(); W_commit = nondet_bool(); G_set_phy.calls = 0; G_established = 0; G_enc_resets = 0; G_a.n = 0; G_supported_features = nondet_u16(); W_conn_req = nondet_bool(); W_map_ok = nondet_bool(); W_timing_ok = nondet_bool(); G_rx = (struct rx_rec){ 0 }; G_rx.total = nondet_size(); G_rx.order_ok = true; G_k = nondet_size(); BT_KNOWN_EXCLUDE()
 void h_ll_timeout(void) { SETUP; ll_timeout(s); BT_CANARY(); }
 void h_ll_end_event(void) { SETUP; struct connection_event_events e; ll_end_event(s, e); BT_CANARY(); }
 void h_transmit_pending_control_pdus(void) { SETUP; transmit_pending_control_pdus(s); BT_CANARY(); }
